@@ -25,7 +25,12 @@ def spec(chk):
                  random=200 if q else 2000, sim=(40, 20) if q else (600, 30)),
             dict(name="noeoc", objs=2, maxsp=1 if q else 2, depth=6 if q else 7, ideal_depth=7 if q else 8, eoc=False, acts=acts,
                  random=100 if q else 1000),
-        ] + ([] if q else [dict(name="eoc3", objs=3, maxsp=1, depth=6, ideal_depth=7, eoc=True, acts=acts + ["Expunge"], random=1000)]),
+            # savepoint bodies: the walk starts with o1 added and committed, so the depth budget goes to what happens INSIDE one or
+            # two nested savepoints (update + delete of the same object, release into the outer one, rollback of either)
+            dict(name="spbody", objs=1, maxsp=2, depth=9, ideal_depth=10, eoc=True, acts=["SetV", "Sp"], vals=(1,), start="committed", random=100),
+            dict(name="spbody_noeoc", objs=1, maxsp=2, depth=10, ideal_depth=10, eoc=False, acts=["SetV", "Sp"], vals=(1,), start="committed", random=100),
+        ] + ([] if q else [dict(name="spbody2", objs=2, maxsp=2, depth=8, ideal_depth=9, eoc=True, acts=["SetV", "Sp"], vals=(1,),
+                                start="committed", random=500)]) + ([] if q else [dict(name="eoc3", objs=3, maxsp=1, depth=6, ideal_depth=7, eoc=True, acts=acts + ["Expunge"], random=1000)]),
         mech_invs=MECH_INVS, mech_props=MECH_PROPS, abs_invs=ABS_INVS, abs_props=ABS_PROPS,
         devs={"eoc": dict(acts=[], eoc=False), "b": dict(acts=["Close"]), "ksw": dict(acts=["SetPk"]),
               "kswmerge": dict(acts=["SetPk", "Sp"], depth=8)},
